@@ -156,7 +156,7 @@ func runParent(d *Driver, prop, casesPath, outPath string, seed int64, tier stri
 			"-from", strconv.Itoa(from), "-progress", progress, "-seed", strconv.FormatInt(seed, 10), "-tier", tier,
 			"-hangconfirmed="+strconv.FormatBool(hangs))
 		cmd.Stdout = os.Stderr
-		stderr := &tailBuf{max: 4000}
+		stderr := &tailBuf{max: 16000}
 		cmd.Stderr = stderr
 		err := cmd.Run()
 		if err == nil {
@@ -185,6 +185,7 @@ func runParent(d *Driver, prop, casesPath, outPath string, seed int64, tier stri
 			out, _ := os.OpenFile(outPath, os.O_APPEND|os.O_CREATE|os.O_WRONLY, 0o644)
 			w := bufio.NewWriter(out)
 			c := &Case{Idx: k, Raw: cs[k], Seed: seed, Tier: tier}
+			lastChildStderr = stderr.String()
 			for _, l := range d.Abnormal(c, kind) {
 				writeLine(w, l)
 			}
@@ -205,6 +206,9 @@ func runParent(d *Driver, prop, casesPath, outPath string, seed int64, tier stri
 	fmt.Fprintf(os.Stderr, "driver: %d cases, %d abnormal\n", len(cs), abnormal)
 	return 0
 }
+
+// lastChildStderr: the tail of the stderr of the child that just died (a race report, a fatal error), for Abnormal
+var lastChildStderr string
 
 type tailBuf struct {
 	max int
